@@ -143,6 +143,9 @@ def collect(rep, tier, seed, prefixes):
 def run(tier, seed):
     rep = Report(PROP, tier, seed, 'model_checking')
     traces = collect(rep, tier, seed, ('C07_', 'C01_'))
+    rep.exclude('constructor option dim_adaptive=True: initialisation raises TypeError (lists handed to init_adaptive_combi_scheme); with the one-token repair the option trips '
+                'assertions and produces invalid local combinations - unfinished feature, not driven')
+    rep.exclude('constructor option no_initial_splitting=True: refused by the library itself (assert False in initialize_refinement)')
     return conclude(rep, traces, ('C07_', 'C01_'))
 
 
